@@ -69,12 +69,10 @@ func C15(c *core.Ctx) {
 
 	// arms are identified by the event-type constant compared in the dominating facts
 	armOf := func(b *ssa.BasicBlock) int64 {
-		for _, f := range core.FactsAt(b) {
-			if cmp, ok := f.V.(*ssa.BinOp); ok && cmp.Op == token.EQL && f.True {
-				if _, fld, ok := core.LoadedField(cmp.X); ok && fld.Name() == "eType" {
-					if k, ok := core.ConstInt(cmp.Y); ok {
-						return k
-					}
+		for _, eq := range eqFacts(b) {
+			if _, fld, ok := core.LoadedField(eq[0]); ok && fld.Name() == "eType" {
+				if k, ok := core.ConstInt(eq[1]); ok {
+					return k
 				}
 			}
 		}
@@ -121,11 +119,8 @@ func C15(c *core.Ctx) {
 		if arm == tDEL {
 			// exactly when the whole group is empty: fact len(load group.urrids) == 0, where the operand is the field itself
 			whole := false
-			for _, f := range core.FactsAt(dc.Block()) {
-				cmp, ok := f.V.(*ssa.BinOp)
-				if !ok || cmp.Op != token.EQL || !f.True {
-					continue
-				}
+			for _, eq := range eqFacts(dc.Block()) {
+				cmp := struct{ X, Y ssa.Value }{eq[0], eq[1]}
 				if z, ok := core.ConstInt(cmp.Y); !ok || z != 0 {
 					continue
 				}
@@ -201,8 +196,6 @@ func C15(c *core.Ctx) {
 	if query == nil {
 		c.Check("R2", "tick-queries", serve.Pos(), false, "the TIMEOUT arm calls the query callback")
 	} else {
-		qm, isMk := query.Call.Args[0].(*ssa.MakeMap)
-		c.Check("R2", "tick-query-map", query.Pos(), isMk && armOf(qm.Block()) == tTIMEOUT, "the query map is built freshly for this tick")
 		// group looked up by e.period
 		var grp ssa.Value
 		core.Instrs(serve, func(in ssa.Instruction) {
@@ -219,11 +212,36 @@ func C15(c *core.Ctx) {
 			}
 		})
 		c.Check("R2", "tick-group", query.Pos(), grp != nil, "the group queried is the one registered under the tick's period")
+		// the query map is built in the TIMEOUT arm itself, or by a method of the group called there
+		// (lSeidUrridsMap = perioGroup.urrIdsBySeid()): then the copy loops are judged inside that method,
+		// with its receiver standing for the group
+		builder := serve
+		base := grp
+		inArm := func(b *ssa.BasicBlock) bool { return armOf(b) == tTIMEOUT }
+		qmVal := query.Call.Args[0]
+		if hc, isCall := qmVal.(*ssa.Call); isCall && !hc.Call.IsInvoke() && armOf(hc.Block()) == tTIMEOUT {
+			if h := core.StaticFn(hc); h != nil && h.Blocks != nil && p.IsOwnFn(h) && grp != nil && core.CallRecv(hc) == grp && len(h.Params) >= 1 {
+				var ret ssa.Value
+				nRet := 0
+				core.Instrs(h, func(hin ssa.Instruction) {
+					if r, isR := hin.(*ssa.Return); isR && len(r.Results) == 1 {
+						nRet++
+						ret = r.Results[0]
+					}
+				})
+				if nRet == 1 {
+					builder, base, qmVal = h, h.Params[0], ret
+					inArm = func(*ssa.BasicBlock) bool { return true }
+				}
+			}
+		}
+		qm, isMk := qmVal.(*ssa.MakeMap)
+		c.Check("R2", "tick-query-map", query.Pos(), isMk && inArm(qm.Block()), "the query map is built freshly for this tick")
 		// two nested ranges over grp.urrids / its values, appending into the query map; no exits
 		var outer, inner *ssa.Range
-		core.Instrs(serve, func(in ssa.Instruction) {
-			if r, ok := in.(*ssa.Range); ok && armOf(r.Block()) == tTIMEOUT {
-				if grp != nil && core.IsPath(r.X, grp, "urrids") {
+		core.Instrs(builder, func(in ssa.Instruction) {
+			if r, ok := in.(*ssa.Range); ok && inArm(r.Block()) {
+				if base != nil && core.IsPath(r.X, base, "urrids") {
 					outer = r
 				} else if ex, ok := r.X.(*ssa.Extract); ok && ex.Index == 2 && outer != nil {
 					if nx, ok := ex.Tuple.(*ssa.Next); ok && nx.Iter == ssa.Value(outer) {
@@ -234,7 +252,7 @@ func C15(c *core.Ctx) {
 		})
 		copied := false
 		if outer != nil && inner != nil && isMk {
-			core.Instrs(serve, func(in ssa.Instruction) {
+			core.Instrs(builder, func(in ssa.Instruction) {
 				if mu, ok := in.(*ssa.MapUpdate); ok && mu.Map == ssa.Value(qm) {
 					// key = outer key; value = append(qm[key], inner key)
 					ko, ok1 := mu.Key.(*ssa.Extract)
@@ -258,15 +276,10 @@ func C15(c *core.Ctx) {
 			// no exit from the copy loops other than their own end: the query call is dominated by the outer range and
 			// every block between them that belongs to the loops branches only on the iterators
 			exits := false
-			for _, b := range serve.Blocks {
-				if !outer.Block().Dominates(b) || !b.Dominates(query.Block()) && !reachesBlock(b, outer.Block().Succs[0]) {
-					continue
-				}
-			}
 			_ = exits
 			hdrO := outer.Block().Succs[0]
 			bad := false
-			for _, b := range serve.Blocks {
+			for _, b := range builder.Blocks {
 				if b == hdrO || !inNaturalLoop(b, hdrO) {
 					continue
 				}
